@@ -242,13 +242,18 @@ impl TypedProgram {
         // in source order (not in the order of the hash map): a constant may refer to an earlier one
         for (const_name, const_def) in sorted_const_defs {
             // later constants may refer to this one by name
+            // (with the value the constant itself has: reduced to the width of its type)
             match const_def.ty {
                 Type::Unsigned(_) => {
                     let n = resolve_const_expr_unsigned(&const_def.value, &consts_unsigned);
+                    let bits = const_def.ty.size_in_bits_for_defs(self, &const_sizes);
+                    let n = if bits < 64 { n & ((1 << bits) - 1) } else { n };
                     consts_unsigned.insert(const_name.clone(), n);
                 }
                 Type::Signed(_) => {
                     let n = resolve_const_expr_signed(&const_def.value, &consts_signed);
+                    let bits = const_def.ty.size_in_bits_for_defs(self, &const_sizes);
+                    let n = if bits < 64 { (n << (64 - bits)) >> (64 - bits) } else { n };
                     consts_signed.insert(const_name.clone(), n);
                 }
                 _ => {}
